@@ -409,6 +409,18 @@ example : (setBatchLocked {} ["a.com".toList, "b.com".toList, "a.com".toList, "*
     (removeBatchLocked (setBatchLocked {} ["a.com".toList, "*.c.com".toList]).1 ["*.c.com".toList, "x.com".toList]).2 = 1 := by
   decide
 
+
+/-- non-vacuity for overlapped calls of different kinds: a `Remove` whose rewrite
+is overtaken by a later `Set` is not lost — the `Set`'s snapshot already lacks the
+removed name, the stale rewrite is dropped, the file holds exactly memory. -/
+theorem overlapped_remove_not_lost :
+    let s := run {} ([.mutate (.set "a.com.".toList), .begin 0 true, .write true, .write true, .sync true,
+      .close true, .rename true, .commit,
+      .mutate (.remove "a.com.".toList), .mutate (.set "b.com.".toList),
+      .begin 1 true, .write true, .write true, .sync true, .close true, .rename true, .commit, .begin 0 true])
+    s.mem.m = ["b.com.".toList] ∧ s.main = some [headerLine, "b.com.".toList] ∧ s.pending = [] ∧ s.inflight = none := by
+  decide
+
 /-- **A directory reload touches no file**: it reads `local` and a staging file
 but leaves the main file, the staging file of a `persist` in progress, the
 pending snapshots and both version counters exactly as they were. -/
